@@ -1,6 +1,6 @@
 """C03 - no stuck workflow: quiescence implies a resting status."""
 from ovf.props.common import batches, scale, ASSUME_SIM
-from ovf.workloads import conduct, mon  # noqa: F401
+from ovf.workloads import conduct, corpus, mon  # noqa: F401
 from ovf.props.sweeps import ctl_sweep  # noqa: F401
 
 LEVEL = "exploration"
@@ -29,6 +29,8 @@ def jobs(tier, seed):
                   P=dict(P, p_fail_cmd=0.03), scheds=2, p_fail=0.3, exotic=0.5, ctl=dict(rerun=1.0), name="default-rerun")
     js += batches("ctl_sweep", scale(tier, 40, 600), scale(tier, 4, 20), gen="mix", p_loop=0.3, gseed=seed + 7,
                   P=dict(P, nmax=6), modes=["pause"], name="pause-sweep")
+    # the repository's own fixture definitions under generated outcomes, schedules and requests
+    js += [dict(fn="corpus", parts=4, part=i, runs=scale(tier, 4, 40), gseed=seed, ctl=dict(req=0.08, max_req=3, reqs=["pausing", "paused", "resuming", "running", "canceling"]), name="corpus") for i in range(4)]
     return js
 
 
